@@ -9,9 +9,11 @@ import (
 	"fmt"
 	"io"
 	"os"
+	"os/signal"
 	"path/filepath"
 	"sort"
 	"strings"
+	"syscall"
 
 	bufcli "github.com/bufbuild/buf/private/buf/cmd/buf"
 	"github.com/bufbuild/buf/private/bufpkg/bufcas"
@@ -57,6 +59,14 @@ type caseData struct {
 	// preDest prepares the destination of the next execution before the write path runs
 	preDest func(d *dest)
 	srcDir  string // cli: the workspace on disk
+	// unwrapped: the write path gets the real disk bucket itself, without the simulator's wrapper (and so
+	// sees whatever optional interfaces its objects implement); no scheduling points, no injected faults
+	unwrapped bool
+}
+
+func init() {
+	// the file-size-limit executions lower RLIMIT_FSIZE: write(2) must answer EFBIG, not kill the process
+	signal.Ignore(syscall.SIGXFSZ)
 }
 
 type dest struct {
@@ -472,6 +482,11 @@ func (r *runner) newDest(c *caseData) *dest {
 			d.raw = storage.MapReadWriteBucket(raw, storage.MapOnPrefix("sub/dir"))
 			d.bucket = storage.MapReadWriteBucket(sb, storage.MapOnPrefix("sub/dir"))
 		}
+		if c.unwrapped {
+			d.bucket = d.raw
+			d.provider = storageos.NewProvider()
+			r.hooks.RawRoot = ""
+		}
 	}
 	return d
 }
@@ -629,6 +644,16 @@ func Run(tp *tape.Tape, env *engine.Env) *engine.Outcome {
 		}
 	}
 	c.files = gen.Files(tp, 1, 6, true)
+	many := 0
+	if !c.wp.cli && !c.wp.modules && tp.Draw("manyfiles", 40) == 39 {
+		// now and then far more objects than any batch, buffer or worker pool inside the write path holds at once
+		many = tape.Pick(tp, "manycount", []int{1025, 1100, 1500, 2049})
+		for i := 0; i < many; i++ {
+			c.files[fmt.Sprintf("many/d%02d/f%04d.txt", i%7, i)] = []byte(fmt.Sprintf("%d\n", i))
+		}
+		s.MaxSteps = 4000000
+		s.Probe("more-than-a-thousand-objects")
+	}
 	c.paths = gen.SortedPaths(c.files)
 	c.atomic = tp.Draw("atomic", 2) == 1
 	c.dstKind = tape.Pick(tp, "dst", []string{"mem", "os", "osmap"})
@@ -688,7 +713,11 @@ func Run(tp *tape.Tape, env *engine.Env) *engine.Outcome {
 		panic(err)
 	}
 	c.tarData, c.zipData = tb.Bytes(), zb.Bytes()
-	s.Event("case wp=%s dst=%s atomic=%v par=%d files=%v", c.wp.name, c.dstKind, c.atomic, c.par, c.paths)
+	if many > 0 {
+		s.Event("case wp=%s dst=%s atomic=%v par=%d files=%d (%d of them many/dNN/fNNNN.txt)", c.wp.name, c.dstKind, c.atomic, c.par, len(c.paths), many)
+	} else {
+		s.Event("case wp=%s dst=%s atomic=%v par=%d files=%v", c.wp.name, c.dstKind, c.atomic, c.par, c.paths)
+	}
 
 	counters := map[string]int{}
 	refErr, E, refPol := r.exec(c, true, nil)
@@ -712,6 +741,9 @@ func Run(tp *tape.Tape, env *engine.Env) *engine.Outcome {
 	limit := 60
 	if env.Tier == "thorough" {
 		limit = 400
+	}
+	if many > 0 {
+		limit = limit / 5
 	}
 	if len(all) > limit {
 		perm := tp.Perm("subset", len(all))
@@ -806,6 +838,87 @@ func Run(tp *tape.Tape, env *engine.Env) *engine.Outcome {
 			}
 		}
 	}
+	// Another REAL failure below every hook, and one that also reaches the temporary file of an atomic put:
+	// the process's file size limit (RLIMIT_FSIZE, SIGXFSZ ignored) is lowered below the size of one of the
+	// files to write, so write(2) / copy_file_range(2) fail with EFBIG in the middle of that file. The write
+	// path gets the real disk bucket without the simulator's wrapper around it. The operation must fail; an
+	// atomic put must leave the old content (or nothing), never a prefix of the new one, and no temp file.
+	if (c.dstKind == "os" || c.dstKind == "osmap") && !c.wp.modules && !c.wp.cli && !c.wp.rawDst && !c.wp.stream {
+		var victims []string
+		for _, k := range simfs.SortedKeys(E) {
+			if len(E[k]) > 1 && !simfs.IsTemp(k) {
+				victims = append(victims, k)
+			}
+		}
+		if len(victims) > 0 {
+			victim := victims[tp.Draw("fsizevictim", len(victims))]
+			limit := 1 + tp.Draw("fsizelimit", len(E[victim])-1)
+			old := "the previous content of " + victim
+			havOld := tp.Draw("fsizeold", 2) == 1
+			var saved syscall.Rlimit
+			c.unwrapped = true
+			c.preDest = func(d *dest) {
+				if havOld {
+					full := filepath.Join(d.dir, filepath.FromSlash(victim))
+					if c.dstKind == "osmap" {
+						full = filepath.Join(d.dir, "sub", "dir", filepath.FromSlash(victim))
+					}
+					if err := os.MkdirAll(filepath.Dir(full), 0o755); err != nil {
+						panic(err)
+					}
+					if err := os.WriteFile(full, []byte(old), 0o644); err != nil {
+						panic(err)
+					}
+				}
+				if err := syscall.Getrlimit(syscall.RLIMIT_FSIZE, &saved); err != nil {
+					panic(err)
+				}
+				if err := syscall.Setrlimit(syscall.RLIMIT_FSIZE, &syscall.Rlimit{Cur: uint64(limit), Max: saved.Max}); err != nil {
+					panic(err)
+				}
+			}
+			var dstDir string
+			hooks.AtomicFinals = map[string]bool{}
+			inner := c.preDest
+			c.preDest = func(d *dest) { dstDir = d.dir; inner(d) }
+			err, state, _ := r.exec(c, false, nil)
+			if rerr := syscall.Setrlimit(syscall.RLIMIT_FSIZE, &saved); rerr != nil {
+				panic(rerr)
+			}
+			c.preDest, c.unwrapped = nil, false
+			atomicFinals := hooks.AtomicFinals
+			hooks.AtomicFinals = nil
+			// was the object at this bucket path created through a temporary file?
+			putAtomically := func(k string) bool {
+				full := filepath.Join(dstDir, filepath.FromSlash(k))
+				if c.dstKind == "osmap" {
+					full = filepath.Join(dstDir, "sub", "dir", filepath.FromSlash(k))
+				}
+				return atomicFinals[full]
+			}
+			counters["file_size_limit_executions"]++
+			s.Fired("file-size-limit")
+			s.Event("file size limit %d at %s (old content %v) err=%v", limit, victim, havOld, err != nil)
+			if err == nil {
+				s.Violate("write-failure-reported", "C15|unreported|"+c.wp.name+"|file-size-limit",
+					"%s (dst=%s atomic=%v): no file may grow beyond %d bytes (RLIMIT_FSIZE), %s has %d, but the operation returned nil", c.wp.name, c.dstKind, c.atomic, limit, victim, len(E[victim]))
+			} else {
+				if putAtomically(victim) {
+					s.Probe("atomic-put-hit-file-size-limit")
+				}
+				for _, k := range simfs.SortedKeys(state) {
+					if simfs.IsTemp(k) {
+						s.Violate("failed-put-leaves-nothing", "C15|atomic-failed-put-residue|"+c.wp.name+"|file-size-limit",
+							"%s (dst=%s) failed at the file size limit (%v) but left %s behind", c.wp.name, c.dstKind, err, k)
+					} else if putAtomically(k) && state[k] != E[k] && !(havOld && k == victim && state[k] == old) {
+
+						s.Violate("atomic-put-all-or-nothing", "C15|atomic-failed-put-partial|"+c.wp.name+"|file-size-limit",
+							"%s (dst=%s): the atomic put of %s (%d bytes) failed at the file size limit %d (%v) and left %d bytes that are neither the previous nor the complete new content", c.wp.name, c.dstKind, k, len(E[k]), limit, err, len(state[k]))
+					}
+				}
+			}
+		}
+	}
 	// cancellation in the middle of the operation: success may only be reported if everything is there
 	ncancel := 3
 	if len(refPol.seen) < ncancel {
@@ -866,9 +979,18 @@ func Run(tp *tape.Tape, env *engine.Env) *engine.Outcome {
 	out := engine.FromSim(s)
 	out.Counters = counters
 	out.Distinct = states
+	described := gen.Describe(c.files)
+	if many > 0 {
+		for k := range described {
+			if strings.HasPrefix(k, "many/") {
+				delete(described, k)
+			}
+		}
+		described["many/dNN/fNNNN.txt (count)"] = many
+	}
 	out.Sample = map[string]any{
 		"part": "A", "write_path": c.wp.name, "dst": c.dstKind, "atomic": c.atomic, "parallelism": c.par,
-		"files": gen.Describe(c.files), "dst_positions": len(refPol.seen), "fault_executions": counters["fault_executions"],
+		"files": described, "dst_positions": len(refPol.seen), "fault_executions": counters["fault_executions"],
 	}
 	return out
 }
